@@ -119,7 +119,8 @@ FORMATS = ["CCYY-MM-DDThh:mm:ssZ", "CCYYDDDThhmm+0530", "CCYY-Www-D",
 # operations whose cost is unbounded in the distance between operands (member
 # scans, unit-by-unit search): run under a logical step budget
 BUDGETED = ("rec.valid", "rec.first_after", "trunc+tp", "tp+trunc",
-            "tp.add_truncated", "rec.getitem")
+            "tp.add_truncated", "rec.getitem", "any+any", "any-any",
+            "any-any2")
 
 
 class Program:
@@ -248,12 +249,28 @@ class Program:
         t = rng.choice(trunc) if trunc else None
         whole = fp if fp is not None and R.tp_is_integral(fp) and \
             fp._hour_of_day != 24 else None
+        # operands for the "any" operations: favour the rare spellings
+        # (zone-less truncated points, the 24:00 form)
+        eod = [o for o in self.pool if type(o).__name__ == TP and
+               o._hour_of_day == 24]
+        ap = rng.choice(trunc) if trunc and rng.random() < 0.5 else p
+        aq = rng.choice(eod) if eod and rng.random() < 0.5 else q
         menu = [
             ("tp+dur", (fp, d), lambda: fp + d),
             ("dur+tp", (e, fp), lambda: e + fp),
             ("tp-dur", (fp, e), lambda: fp - e),
             ("tp-tp", (fp, fq), lambda: fp - fq),
             ("tp==", (p, q), lambda: p == q),
+            ("any-any", (ap, aq), lambda: ap - aq),
+            ("any-any2", (aq, ap), lambda: aq - ap),
+            ("any<any", (ap, aq), lambda: ap < aq),
+            ("any==any", (aq, ap), lambda: aq == ap),
+            ("any+any", (ap, aq), lambda: ap + aq),
+            ("any-dur", (aq, e), lambda: aq - e),
+            ("any+dur", (aq, d), lambda: aq + d),
+            ("any.add_months", (aq,), lambda: aq.add_months(n)),
+            ("any.hash-str", (aq,), lambda: (hash(aq), str(aq))),
+            ("any.to_tz", (ap, z), lambda: ap.to_time_zone(z)),
             ("tp!=", (fp, fq), lambda: fp != fq),
             ("tp<", (fp, fq), lambda: fp < fq),
             ("tp<=", (fp, fq), lambda: fp <= fq),
